@@ -11,7 +11,7 @@ import z3
 
 from .classtable import (Ty, TBool, TInt, TReal, TStr, TDT, TVal, TNode, TSeq, TSet, TOpt, TEnum, TMap)
 from .contracts import CONTRACTS, unwrap_function
-from .values import (SV, Rec, Box, Exc, BoundMethod, VirtualMethod, Closure, FunSym, Opaque, PyRaise,
+from .values import (MetaBox, SV, Rec, Box, Exc, BoundMethod, VirtualMethod, Closure, FunSym, Opaque, PyRaise,
                      Untranslatable, is_concrete)
 from .interp_expr import BuiltinMethod, Frame
 
@@ -130,6 +130,8 @@ class AttrMixin:
             return self.pyclass_getattr(obj.ci.cls, obj, name, fr, node)
         if isinstance(obj, Box):
             return BuiltinMethod(f'{obj.kind}.{name}', obj)
+        if isinstance(obj, MetaBox):
+            return BuiltinMethod('meta.' + name, obj)
         if isinstance(obj, Exc):
             if name == 'args':
                 return obj.args
@@ -225,6 +227,8 @@ class AttrMixin:
                 first = next(iter(cons.values()))
                 if first is not None and all(c is first for c in cons.values()):
                     exact = len(cis) == 1
+                    if not exact and first.inline_when_known and self.receiver_known(obj):
+                        return self.node_getattr(obj, name, fr, node)     # class now fixed by the path condition
                     if not (exact and first.inline_when_known):
                         if res[cis[0].name][0] == 'prop':
                             return self.call_contract(first, [obj], {}, fr, node)
@@ -286,4 +290,10 @@ class AttrMixin:
         return what
 
     def read_slot(self, obj, name, fr, node):
+        if name == 'metadata':
+            key = obj.oid if obj.oid is not None else ('term', obj.term.get_id())
+            mb = self.meta_boxes.get(key)
+            if mb is None:
+                mb = self.meta_boxes[key] = MetaBox(key)
+            return mb
         raise Untranslatable(f'slot {name} outside the value model')
